@@ -190,7 +190,7 @@ func Tokenize(src string) (toks []Token, ok bool) {
 // Chooser is the subset of the choice tape the renderer needs.
 type Chooser interface{ Choose(n int) int }
 
-var seps = []string{" ", "\n", "\t", "  ", "\r\n", "\r", " \n ", "\n\n", "--\n", "-- c ]] [[ \"\n", "--[[ x ]]", "--[==[ ]] \n ]=] ]==]", "--[[\n]]", " --[=[ -- ]=] ", "\n\r", "--[ not long\n", "--[=x\r\n", "--[=\n", "--[==\r\n", "--[=\r", "--[\n", "--[===\n\n"}
+var seps = []string{" ", "\n", "\t", "\f", "\v", " \f\n", "  ", "\r\n", "\r", " \n ", "\n\n", "--\n", "-- c ]] [[ \"\n", "--[[ x ]]", "--[==[ ]] \n ]=] ]==]", "--[[\n]]", " --[=[ -- ]=] ", "\n\r", "--[ not long\n", "--[=x\r\n", "--[=\n", "--[==\r\n", "--[=\r", "--[\n", "--[===\n\n"}
 
 func safePunct(t Token) bool {
 	if t.Kind != Punct {
